@@ -346,7 +346,7 @@ int vh_main(int argc, char **argv, const struct vh_lab *lab)
     signal(SIGALRM, on_signal);
     setvbuf(stdout, NULL, _IOLBF, 0);
     cpu_lab = lab->name;
-    long cpu_budget = vh_arg_int("case-cpu-budget", 120);
+    long cpu_budget = vh_arg_int("case-cpu-budget", 20);
     signal(SIGVTALRM, on_cpu_budget);
 
     if (lab->init) lab->init();
